@@ -1,1 +1,257 @@
-//! SimDisk (placeholder, filled in with C07/C08)
+//! SimDisk: a page-cache model with small blocks, writer programs W1-W3 (models of the
+//! documented usage `File::create` + `write_all`, labelled stubs in evidence), crash points
+//! between syscalls, and classification of the durable image. The library has no write
+//! path; the reader side is the real `Ontology::from_binary` on the materialised image.
+
+use crate::scenario::DiskSpec;
+use serde::{Deserialize, Serialize};
+
+#[derive(Clone, Debug, PartialEq, Eq, Serialize, Deserialize)]
+pub enum Sys {
+    CreateTrunc,
+    OpenNoTrunc,
+    CreateTmp,
+    Write { off: usize, len: usize },
+    Fsync,
+    Close,
+    Rename,
+}
+
+#[derive(Clone, Copy, Debug, PartialEq, Eq, Serialize, Deserialize, PartialOrd, Ord, Hash)]
+pub enum ImageClass {
+    Absent,
+    Full,
+    Old,
+    Prefix,
+    Extended,
+    Torn,
+}
+
+pub struct Image {
+    /// None = the path does not exist after the crash
+    pub bytes: Option<Vec<u8>>,
+    pub class: ImageClass,
+    pub syscalls_done: usize,
+    pub syscalls_total: usize,
+    pub trace: Vec<String>,
+}
+
+pub fn program(spec: &DiskSpec, len: usize) -> Vec<Sys> {
+    let mut p = vec![];
+    let chunk = spec.chunk.max(1);
+    match spec.writer {
+        1 => {
+            p.push(Sys::CreateTrunc);
+            let mut off = 0;
+            while off < len {
+                let l = chunk.min(len - off);
+                p.push(Sys::Write { off, len: l });
+                off += l;
+            }
+            if spec.fsync {
+                p.push(Sys::Fsync);
+            }
+            p.push(Sys::Close);
+        }
+        2 => {
+            p.push(Sys::CreateTmp);
+            let mut off = 0;
+            while off < len {
+                let l = chunk.min(len - off);
+                p.push(Sys::Write { off, len: l });
+                off += l;
+            }
+            p.push(Sys::Fsync);
+            p.push(Sys::Close);
+            p.push(Sys::Rename);
+        }
+        _ => {
+            p.push(Sys::OpenNoTrunc);
+            let mut off = 0;
+            while off < len {
+                let l = chunk.min(len - off);
+                p.push(Sys::Write { off, len: l });
+                off += l;
+            }
+            if spec.fsync {
+                p.push(Sys::Fsync);
+            }
+            p.push(Sys::Close);
+        }
+    }
+    p
+}
+
+struct Bits(u64, u32);
+impl Bits {
+    fn next(&mut self) -> bool {
+        // a small LCG over the durable-choice word so that any number of blocks can be decided
+        self.0 = self.0.wrapping_mul(6364136223846793005).wrapping_add(1442695040888963407);
+        self.1 += 1;
+        (self.0 >> 33) & 1 == 1
+    }
+    fn below(&mut self, n: usize) -> usize {
+        self.0 = self.0.wrapping_mul(6364136223846793005).wrapping_add(1442695040888963407);
+        ((self.0 >> 33) as usize) % n.max(1)
+    }
+}
+
+/// Run the writer program for `intended` over a disk that holds `old` (the previous durable
+/// file at the target path, if any), crash as specified, and compute the durable image.
+pub fn run(spec: &DiskSpec, intended: &[u8], old: Option<&[u8]>) -> Image {
+    let prog = program(spec, intended.len());
+    let total = prog.len();
+    let stop = spec.crash_at.map_or(total, |k| k.min(total));
+    let block = spec.block.max(1);
+    let mut bits = Bits(spec.durable_bits ^ 0x9E37_79B9_7F4A_7C15, 0);
+    let mut trace = vec![];
+    // state of the file being written (target for W1/W3, temp for W2)
+    let mut cache: Vec<u8> = match spec.writer {
+        3 => old.map(|o| o.to_vec()).unwrap_or_default(),
+        _ => vec![],
+    };
+    let mut durable: Option<Vec<u8>> = match spec.writer {
+        2 => None,
+        _ => old.map(|o| o.to_vec()),
+    };
+    let mut dirty: std::collections::BTreeSet<usize> = Default::default();
+    let mut meta_dirty = false; // size / truncation not yet durable
+    let mut exists_in_cache = spec.writer == 3 && old.is_some();
+    let mut renamed = false;
+    let mut fsynced_full = false;
+    for (i, sc) in prog.iter().enumerate() {
+        if i >= stop {
+            break;
+        }
+        trace.push(format!("{sc:?}"));
+        match sc {
+            Sys::CreateTrunc => {
+                cache.clear();
+                meta_dirty = true;
+                exists_in_cache = true;
+            }
+            Sys::CreateTmp => {
+                cache.clear();
+                exists_in_cache = true;
+            }
+            Sys::OpenNoTrunc => {
+                if !exists_in_cache {
+                    // nothing to overwrite: behaves like create
+                    exists_in_cache = true;
+                    meta_dirty = true;
+                }
+            }
+            Sys::Write { off, len } => {
+                if cache.len() < off + len {
+                    cache.resize(off + len, 0);
+                    meta_dirty = true;
+                }
+                cache[*off..off + len].copy_from_slice(&intended[*off..off + len]);
+                for b in (off / block)..=((off + len - 1) / block) {
+                    dirty.insert(b);
+                }
+            }
+            Sys::Fsync => {
+                durable = Some(cache.clone());
+                dirty.clear();
+                meta_dirty = false;
+                fsynced_full = cache == intended;
+            }
+            Sys::Close => {}
+            Sys::Rename => {
+                renamed = true;
+            }
+        }
+    }
+    let crashed = stop < total;
+    let bytes: Option<Vec<u8>> = if !crashed {
+        // clean shutdown: everything reaches the disk
+        match spec.writer {
+            2 => Some(cache.clone()),
+            _ => Some(cache.clone()),
+        }
+    } else if spec.writer == 2 {
+        // the target is either the old file or (rename durable) the fully synced temp file
+        if renamed && bits.next() {
+            trace.push("crash: rename was durable".into());
+            durable.clone()
+        } else {
+            trace.push("crash: target still the previous file".into());
+            old.map(|o| o.to_vec())
+        }
+    } else if !exists_in_cache {
+        old.map(|o| o.to_vec())
+    } else {
+        // block-wise choice between what was durable and what sat in the page cache
+        let base = durable.clone().unwrap_or_default();
+        let mut img = base.clone();
+        // size metadata: old / new / an intermediate write boundary
+        let new_len = cache.len();
+        let len_choice = if !meta_dirty {
+            base.len()
+        } else {
+            match bits.below(3) {
+                0 => base.len(),
+                1 => new_len,
+                _ => {
+                    let b = bits.below(new_len / block + 1) * block;
+                    b.min(new_len)
+                }
+            }
+        };
+        if img.len() < len_choice {
+            img.resize(len_choice, 0);
+        }
+        let mut persisted = 0;
+        for b in &dirty {
+            if bits.next() {
+                let s = b * block;
+                let e = ((b + 1) * block).min(cache.len());
+                if s < e {
+                    if img.len() < e {
+                        // data beyond the durable size does not survive
+                        let e2 = e.min(img.len());
+                        if s < e2 {
+                            img[s..e2].copy_from_slice(&cache[s..e2]);
+                        }
+                    } else {
+                        img[s..e].copy_from_slice(&cache[s..e]);
+                    }
+                    persisted += 1;
+                }
+            }
+        }
+        img.truncate(len_choice);
+        trace.push(format!("crash: {persisted} of {} dirty blocks durable, durable size {len_choice} (cache size {new_len}, previous {})", dirty.len(), base.len()));
+        if durable.is_none() && !meta_dirty && img.is_empty() && old.is_none() {
+            None
+        } else if durable.is_none() && old.is_none() && meta_dirty && len_choice == 0 && bits.next() {
+            // the creation of the directory entry itself was not durable
+            None
+        } else {
+            Some(img)
+        }
+    };
+    let _ = fsynced_full;
+    let class = classify(bytes.as_deref(), intended, old);
+    Image { bytes, class, syscalls_done: stop, syscalls_total: total, trace }
+}
+
+pub fn classify(img: Option<&[u8]>, intended: &[u8], old: Option<&[u8]>) -> ImageClass {
+    let Some(b) = img else { return ImageClass::Absent };
+    if b == intended {
+        return ImageClass::Full;
+    }
+    if let Some(o) = old {
+        if b == o {
+            return ImageClass::Old;
+        }
+    }
+    if b.len() < intended.len() && intended.starts_with(b) {
+        return ImageClass::Prefix;
+    }
+    if b.len() > intended.len() && b.starts_with(intended) {
+        return ImageClass::Extended;
+    }
+    ImageClass::Torn
+}
